@@ -329,7 +329,15 @@ fn gen_prefix(hs: &HistSeed, cfg: Cfg) -> Vec<Call> {
     }
     let mut r = Runner::new(cfg);
     let mut calls = vec![];
-    for seed in hs.ops.iter().rev().take(30) {
+    if hs.order_sel % 4 == 1 {
+        for c in gen::dangling_edge_template(cfg.cap, hs.order_sel >> 2 & 3) {
+            if r.valid(&c) {
+                r.step(&c);
+                calls.push(c);
+            }
+        }
+    }
+    for seed in hs.ops.iter().rev().take(40) {
         if let Some(c) = gen::resolve(seed, &r.m, gen::Profile::GcOrders) {
             if !matches!(c, Call::Add(_) | Call::Bind { .. } | Call::Put(..) | Call::Data(_) | Call::NextId | Call::NextIdAdd) || !r.valid(&c) {
                 continue;
@@ -707,7 +715,7 @@ impl Engine for ScriptEngine {
     }
     fn strategy(&self, _: Tier) -> BoxedStrategy<ScriptCase> {
         (
-            hist_strategy(25),
+            hist_strategy(60),
             proptest::collection::vec(any::<u16>(), 8..=64),
             proptest::option::weighted(0.5, (any::<u8>(), any::<u16>(), any::<u16>())),
         )
